@@ -178,6 +178,31 @@ def frontend_history(part, depth):
     part.outcome(("history", depth))
 
 
+def kgf_seed_zero(part):
+    """the Korobov generators accept seed 0 (the Sobol ones start at 1): batch = single = front end there too"""
+    from chmpy import sampling as S
+
+    for D in (1, 2, 3, 7, 64):
+        for k in (0, 1, 5):
+            part.ev()
+            part.tr()
+            case = {"kind": "kgf0", "D": D, "k": k}
+            try:
+                B = S.quasirandom_kgf_batch(0, k, D)
+                singles = np.array([S.quasirandom_kgf(n, D) for n in range(0, k + 1)])
+                Q = S.quasirandom(k + 1, D, method="kgf", seed=0)
+                q1 = S.quasirandom(D, method="kgf", seed=0)
+            except Exception as e:
+                part.fail("kgf-seed0-raise", "Korobov generators raised %r for seed 0" % e, case)
+                continue
+            if B.shape != (k + 1, D) or np.abs(B - singles).max() > 1e-12 or B.min() < 0 or B.max() >= 1:
+                part.fail("kgf-seed0:batch-vs-single", "Korobov batch(0,%d,%d) differs from the single-point vectors" % (k, D), case)
+            if Q.shape != B.shape or np.abs(Q - B).max() > 1e-12 or np.abs(q1 - B[0]).max() > 1e-12:
+                part.fail("kgf-seed0:front-end", "quasirandom(%d,%d,'kgf',seed=0) does not return the points of seeds 0..%d" % (k + 1, D, k), case)
+            part.outcome(("kgf0", D > 1))
+    part.nstates(15)
+
+
 def reference_worker(part, dims):
     from chmpy.sampling import quasirandom_sobol_batch
 
@@ -202,6 +227,7 @@ def run(ctx):
     net_check(ctx)
     ctx.pmap(reference_worker, [[d] for d in range(1, 14)])
     frontend_history(ctx, 3 if ctx.thorough else 2)
+    kgf_seed_zero(ctx)
     ctx.log("reference done")
     ws = windows(ctx.thorough)
     sob_dims = [1, 2, 3, 10, 100, 1000]
@@ -229,6 +255,8 @@ def replay(ctx, case):
         net_check(ctx)
     elif k == "ref":
         reference_worker(ctx, [case["d"]])
+    elif k == "kgf0":
+        kgf_seed_zero(ctx)
     elif k == "history":
         frontend_history(ctx, 3)
     else:
